@@ -1,8 +1,20 @@
-//! Verification model of the `indexmap` crate: insertion-ordered map/set backed by a
-//! plain Vec with linear search. Same observable contract as indexmap 2.x for the API
-//! subset turmoil uses (order of iteration, swap_remove / shift_remove reordering, entry API).
+//! Verification model of the `indexmap` crate (API subset used by turmoil).
+//!
+//! Contract kept (indexmap 2.x): key uniqueness, iteration in insertion order, `swap_remove` moves
+//! the last entry into the hole, `shift_remove` preserves order, `retain` preserves order, entry API,
+//! `get_index`, `Index<&K>` panics on a missing key.
+//!
+//! Representation: linear search over an insertion-ordered sequence whose first `INLINE` entries live
+//! *inline* in the map value (`[Option<(K, V)>; INLINE]`) and whose remaining entries spill into a
+//! `Vec`. Rationale (measured, see DESIGN.md §1): CBMC constant-propagates through fields of local
+//! aggregates but not through heap arrays of structs that contain niche-encoded `Option`s, so a table
+//! that keeps its first few entries inline lets symbolic execution resolve lookups on concrete keys
+//! without consulting the solver. The same code (inline + spill) runs natively when the repository's
+//! test-suites are executed against this model.
 use std::borrow::Borrow;
 use std::hash::Hash;
+
+pub const INLINE: usize = 3;
 
 pub mod map {
     pub use super::{Entry, IndexMap, OccupiedEntry, VacantEntry};
@@ -11,105 +23,542 @@ pub mod map {
 }
 pub mod set {
     pub use super::IndexSet;
+    pub type Iter<'a, T> = super::SetIter<'a, T>;
 }
 
-#[derive(Clone)]
+// ------------------------------------------------------------------------------------------------
+// ordered sequence with inline prefix
+
+pub struct Seq<T> {
+    len: usize,
+    inl: [Option<T>; INLINE],
+    spill: Vec<T>,
+}
+
+impl<T> Seq<T> {
+    pub const fn new() -> Self {
+        Seq { len: 0, inl: [const { None }; INLINE], spill: Vec::new() }
+    }
+    #[inline]
+    pub fn len(&self) -> usize {
+        self.len
+    }
+    #[inline]
+    pub fn get(&self, i: usize) -> Option<&T> {
+        if i >= self.len {
+            None
+        } else if i < INLINE {
+            self.inl[i].as_ref()
+        } else {
+            self.spill.get(i - INLINE)
+        }
+    }
+    #[inline]
+    pub fn get_mut(&mut self, i: usize) -> Option<&mut T> {
+        if i >= self.len {
+            None
+        } else if i < INLINE {
+            self.inl[i].as_mut()
+        } else {
+            self.spill.get_mut(i - INLINE)
+        }
+    }
+    #[inline]
+    fn at(&self, i: usize) -> &T {
+        match self.get(i) {
+            Some(t) => t,
+            None => panic!("index out of bounds"),
+        }
+    }
+    #[inline]
+    fn at_mut(&mut self, i: usize) -> &mut T {
+        match self.get_mut(i) {
+            Some(t) => t,
+            None => panic!("index out of bounds"),
+        }
+    }
+    pub fn push(&mut self, t: T) {
+        if self.len < INLINE {
+            self.inl[self.len] = Some(t);
+        } else {
+            self.spill.push(t);
+        }
+        self.len += 1;
+    }
+    pub fn pop(&mut self) -> Option<T> {
+        if self.len == 0 {
+            return None;
+        }
+        self.len -= 1;
+        if self.len < INLINE {
+            self.inl[self.len].take()
+        } else {
+            self.spill.pop()
+        }
+    }
+    /// take the element at `i` out, leaving a hole (caller restores the invariant)
+    fn take_raw(&mut self, i: usize) -> T {
+        if i < INLINE {
+            match self.inl[i].take() {
+                Some(t) => t,
+                None => panic!("hole"),
+            }
+        } else {
+            // order-preserving removal from the spill; only used by `remove` on the last spill index
+            // or via `shift` below
+            self.spill.remove(i - INLINE)
+        }
+    }
+    /// order-preserving removal
+    pub fn remove(&mut self, i: usize) -> T {
+        assert!(i < self.len, "removal index out of bounds");
+        if i >= INLINE {
+            self.len -= 1;
+            return self.spill.remove(i - INLINE);
+        }
+        let out = self.take_raw(i);
+        // shift the inline tail down
+        let mut j = i;
+        while j + 1 < INLINE && j + 1 < self.len {
+            let next = self.inl[j + 1].take();
+            self.inl[j] = next;
+            j += 1;
+        }
+        // pull the first spilled element into the last inline slot
+        if self.len > INLINE {
+            let first = self.spill.remove(0);
+            self.inl[INLINE - 1] = Some(first);
+        }
+        self.len -= 1;
+        out
+    }
+    /// removal that moves the last element into the hole
+    pub fn swap_remove(&mut self, i: usize) -> T {
+        assert!(i < self.len, "removal index out of bounds");
+        let last = match self.pop() {
+            Some(t) => t,
+            None => panic!("empty"),
+        };
+        if i == self.len {
+            last
+        } else {
+            std::mem::replace(self.at_mut(i), last)
+        }
+    }
+    pub fn clear(&mut self) {
+        while self.pop().is_some() {}
+    }
+    pub fn retain_mut<F: FnMut(&mut T) -> bool>(&mut self, mut f: F) {
+        let n = self.len;
+        let mut kept = Seq::new();
+        // drain front-to-back preserving order
+        let mut all = Vec::new();
+        std::mem::swap(&mut all, &mut self.spill);
+        let mut i = 0;
+        while i < n && i < INLINE {
+            if let Some(mut t) = self.inl[i].take() {
+                if f(&mut t) {
+                    kept.push(t);
+                }
+            }
+            i += 1;
+        }
+        for mut t in all {
+            if f(&mut t) {
+                kept.push(t);
+            }
+        }
+        *self = kept;
+    }
+    pub fn iter(&self) -> SeqIter<'_, T> {
+        SeqIter { seq: self, front: 0, back: self.len }
+    }
+    pub fn iter_mut(&mut self) -> SeqIterMut<'_, T> {
+        SeqIterMut { inl: self.inl.iter_mut(), spill: self.spill.iter_mut() }
+    }
+    pub fn into_vec(mut self) -> Vec<T> {
+        let mut v = Vec::with_capacity(self.len);
+        let mut i = 0;
+        while i < self.len && i < INLINE {
+            if let Some(t) = self.inl[i].take() {
+                v.push(t);
+            }
+            i += 1;
+        }
+        v.append(&mut self.spill);
+        v
+    }
+    pub fn drain_all(&mut self) -> Vec<T> {
+        let s = std::mem::replace(self, Seq::new());
+        s.into_vec()
+    }
+}
+
+impl<T: Clone> Clone for Seq<T> {
+    fn clone(&self) -> Self {
+        let mut s = Seq::new();
+        let mut i = 0;
+        while i < self.len {
+            s.push(self.at(i).clone());
+            i += 1;
+        }
+        s
+    }
+}
+
+pub struct SeqIter<'a, T> {
+    seq: &'a Seq<T>,
+    front: usize,
+    back: usize,
+}
+impl<'a, T> Iterator for SeqIter<'a, T> {
+    type Item = &'a T;
+    #[inline]
+    fn next(&mut self) -> Option<&'a T> {
+        if self.front >= self.back {
+            return None;
+        }
+        let r = self.seq.get(self.front);
+        self.front += 1;
+        r
+    }
+    fn size_hint(&self) -> (usize, Option<usize>) {
+        let n = self.back - self.front;
+        (n, Some(n))
+    }
+}
+impl<'a, T> DoubleEndedIterator for SeqIter<'a, T> {
+    fn next_back(&mut self) -> Option<&'a T> {
+        if self.front >= self.back {
+            return None;
+        }
+        self.back -= 1;
+        self.seq.get(self.back)
+    }
+}
+impl<'a, T> ExactSizeIterator for SeqIter<'a, T> {}
+impl<'a, T> Clone for SeqIter<'a, T> {
+    fn clone(&self) -> Self {
+        SeqIter { seq: self.seq, front: self.front, back: self.back }
+    }
+}
+
+pub struct SeqIterMut<'a, T> {
+    inl: std::slice::IterMut<'a, Option<T>>,
+    spill: std::slice::IterMut<'a, T>,
+}
+impl<'a, T> Iterator for SeqIterMut<'a, T> {
+    type Item = &'a mut T;
+    #[inline]
+    fn next(&mut self) -> Option<&'a mut T> {
+        // invariant: inline slots are `Some` exactly for the first min(len, INLINE) positions
+        if let Some(slot) = self.inl.next() {
+            if let Some(t) = slot.as_mut() {
+                return Some(t);
+            }
+        }
+        self.spill.next()
+    }
+}
+
+// ------------------------------------------------------------------------------------------------
+// IndexMap
+
 pub struct IndexMap<K, V> {
-    entries: Vec<(K, V)>,
+    entries: Seq<(K, V)>,
+}
+
+impl<K: Clone, V: Clone> Clone for IndexMap<K, V> {
+    fn clone(&self) -> Self {
+        IndexMap { entries: self.entries.clone() }
+    }
 }
 
 impl<K: std::fmt::Debug, V: std::fmt::Debug> std::fmt::Debug for IndexMap<K, V> {
     fn fmt(&self, f: &mut std::fmt::Formatter<'_>) -> std::fmt::Result {
-        f.debug_map().entries(self.entries.iter().map(|(k, v)| (k, v))).finish()
+        f.debug_map().entries(self.iter()).finish()
     }
 }
 
 impl<K, V> Default for IndexMap<K, V> {
-    fn default() -> Self { Self { entries: Vec::new() } }
+    fn default() -> Self {
+        Self::new()
+    }
 }
 
-pub struct MapIter<'a, K, V>(std::slice::Iter<'a, (K, V)>);
+pub struct MapIter<'a, K, V>(SeqIter<'a, (K, V)>);
 impl<'a, K, V> Iterator for MapIter<'a, K, V> {
     type Item = (&'a K, &'a V);
-    fn next(&mut self) -> Option<Self::Item> { self.0.next().map(|(k, v)| (k, v)) }
-    fn size_hint(&self) -> (usize, Option<usize>) { self.0.size_hint() }
+    #[inline]
+    fn next(&mut self) -> Option<Self::Item> {
+        match self.0.next() {
+            Some((k, v)) => Some((k, v)),
+            None => None,
+        }
+    }
+    fn size_hint(&self) -> (usize, Option<usize>) {
+        self.0.size_hint()
+    }
 }
 impl<'a, K, V> DoubleEndedIterator for MapIter<'a, K, V> {
-    fn next_back(&mut self) -> Option<Self::Item> { self.0.next_back().map(|(k, v)| (k, v)) }
+    fn next_back(&mut self) -> Option<Self::Item> {
+        match self.0.next_back() {
+            Some((k, v)) => Some((k, v)),
+            None => None,
+        }
+    }
 }
 impl<'a, K, V> ExactSizeIterator for MapIter<'a, K, V> {}
-pub struct MapIterMut<'a, K, V>(std::slice::IterMut<'a, (K, V)>);
+impl<'a, K, V> Clone for MapIter<'a, K, V> {
+    fn clone(&self) -> Self {
+        MapIter(self.0.clone())
+    }
+}
+
+pub struct MapIterMut<'a, K, V>(SeqIterMut<'a, (K, V)>);
 impl<'a, K, V> Iterator for MapIterMut<'a, K, V> {
     type Item = (&'a K, &'a mut V);
-    fn next(&mut self) -> Option<Self::Item> { self.0.next().map(|(k, v)| (&*k, v)) }
-    fn size_hint(&self) -> (usize, Option<usize>) { self.0.size_hint() }
+    #[inline]
+    fn next(&mut self) -> Option<Self::Item> {
+        match self.0.next() {
+            Some((k, v)) => Some((&*k, v)),
+            None => None,
+        }
+    }
+}
+
+pub struct Keys<'a, K, V>(SeqIter<'a, (K, V)>);
+impl<'a, K, V> Iterator for Keys<'a, K, V> {
+    type Item = &'a K;
+    #[inline]
+    fn next(&mut self) -> Option<&'a K> {
+        match self.0.next() {
+            Some((k, _)) => Some(k),
+            None => None,
+        }
+    }
+    fn size_hint(&self) -> (usize, Option<usize>) {
+        self.0.size_hint()
+    }
+}
+impl<'a, K, V> DoubleEndedIterator for Keys<'a, K, V> {
+    fn next_back(&mut self) -> Option<&'a K> {
+        match self.0.next_back() {
+            Some((k, _)) => Some(k),
+            None => None,
+        }
+    }
+}
+impl<'a, K, V> ExactSizeIterator for Keys<'a, K, V> {}
+
+pub struct Values<'a, K, V>(SeqIter<'a, (K, V)>);
+impl<'a, K, V> Iterator for Values<'a, K, V> {
+    type Item = &'a V;
+    #[inline]
+    fn next(&mut self) -> Option<&'a V> {
+        match self.0.next() {
+            Some((_, v)) => Some(v),
+            None => None,
+        }
+    }
+    fn size_hint(&self) -> (usize, Option<usize>) {
+        self.0.size_hint()
+    }
+}
+impl<'a, K, V> DoubleEndedIterator for Values<'a, K, V> {
+    fn next_back(&mut self) -> Option<&'a V> {
+        match self.0.next_back() {
+            Some((_, v)) => Some(v),
+            None => None,
+        }
+    }
+}
+impl<'a, K, V> ExactSizeIterator for Values<'a, K, V> {}
+
+pub struct ValuesMut<'a, K, V>(SeqIterMut<'a, (K, V)>);
+impl<'a, K, V> Iterator for ValuesMut<'a, K, V> {
+    type Item = &'a mut V;
+    #[inline]
+    fn next(&mut self) -> Option<&'a mut V> {
+        match self.0.next() {
+            Some((_, v)) => Some(v),
+            None => None,
+        }
+    }
 }
 
 impl<K, V> IndexMap<K, V> {
-    pub fn new() -> Self { Self { entries: Vec::new() } }
-    pub fn with_capacity(n: usize) -> Self { Self { entries: Vec::with_capacity(n) } }
-    pub fn len(&self) -> usize { self.entries.len() }
-    pub fn is_empty(&self) -> bool { self.entries.is_empty() }
-    pub fn clear(&mut self) { self.entries.clear() }
-    pub fn iter(&self) -> MapIter<'_, K, V> { MapIter(self.entries.iter()) }
-    pub fn iter_mut(&mut self) -> MapIterMut<'_, K, V> { MapIterMut(self.entries.iter_mut()) }
-    pub fn keys(&self) -> impl DoubleEndedIterator<Item = &K> + ExactSizeIterator + '_ { self.entries.iter().map(|(k, _)| k) }
-    pub fn values(&self) -> impl DoubleEndedIterator<Item = &V> + ExactSizeIterator + '_ { self.entries.iter().map(|(_, v)| v) }
-    pub fn values_mut(&mut self) -> impl Iterator<Item = &mut V> + '_ { self.entries.iter_mut().map(|(_, v)| v) }
-    pub fn get_index(&self, i: usize) -> Option<(&K, &V)> { self.entries.get(i).map(|(k, v)| (k, v)) }
-    pub fn get_index_mut(&mut self, i: usize) -> Option<(&K, &mut V)> { self.entries.get_mut(i).map(|(k, v)| (&*k, v)) }
+    pub const fn new() -> Self {
+        Self { entries: Seq::new() }
+    }
+    pub fn with_capacity(_n: usize) -> Self {
+        Self::new()
+    }
+    #[inline]
+    pub fn len(&self) -> usize {
+        self.entries.len()
+    }
+    #[inline]
+    pub fn is_empty(&self) -> bool {
+        self.entries.len() == 0
+    }
+    pub fn clear(&mut self) {
+        self.entries.clear()
+    }
+    pub fn iter(&self) -> MapIter<'_, K, V> {
+        MapIter(self.entries.iter())
+    }
+    pub fn iter_mut(&mut self) -> MapIterMut<'_, K, V> {
+        MapIterMut(self.entries.iter_mut())
+    }
+    pub fn keys(&self) -> Keys<'_, K, V> {
+        Keys(self.entries.iter())
+    }
+    pub fn values(&self) -> Values<'_, K, V> {
+        Values(self.entries.iter())
+    }
+    pub fn values_mut(&mut self) -> ValuesMut<'_, K, V> {
+        ValuesMut(self.entries.iter_mut())
+    }
+    pub fn get_index(&self, i: usize) -> Option<(&K, &V)> {
+        match self.entries.get(i) {
+            Some((k, v)) => Some((k, v)),
+            None => None,
+        }
+    }
+    pub fn get_index_mut(&mut self, i: usize) -> Option<(&K, &mut V)> {
+        match self.entries.get_mut(i) {
+            Some((k, v)) => Some((&*k, v)),
+            None => None,
+        }
+    }
     pub fn swap_remove_index(&mut self, i: usize) -> Option<(K, V)> {
-        if i < self.entries.len() { Some(self.entries.swap_remove(i)) } else { None }
+        if i < self.entries.len() {
+            Some(self.entries.swap_remove(i))
+        } else {
+            None
+        }
     }
     pub fn shift_remove_index(&mut self, i: usize) -> Option<(K, V)> {
-        if i < self.entries.len() { Some(self.entries.remove(i)) } else { None }
+        if i < self.entries.len() {
+            Some(self.entries.remove(i))
+        } else {
+            None
+        }
     }
     pub fn retain<F: FnMut(&K, &mut V) -> bool>(&mut self, mut f: F) {
         self.entries.retain_mut(|(k, v)| f(&*k, v))
     }
-    pub fn drain<R: std::ops::RangeBounds<usize>>(&mut self, r: R) -> std::vec::Drain<'_, (K, V)> { self.entries.drain(r) }
-    pub fn first(&self) -> Option<(&K, &V)> { self.get_index(0) }
-    pub fn last(&self) -> Option<(&K, &V)> { self.entries.last().map(|(k, v)| (k, v)) }
-    pub fn pop(&mut self) -> Option<(K, V)> { self.entries.pop() }
+    /// Only the full range is supported by this model (the only form turmoil uses).
+    pub fn drain(&mut self, _r: std::ops::RangeFull) -> std::vec::IntoIter<(K, V)> {
+        self.entries.drain_all().into_iter()
+    }
+    pub fn first(&self) -> Option<(&K, &V)> {
+        self.get_index(0)
+    }
+    pub fn last(&self) -> Option<(&K, &V)> {
+        if self.entries.len() == 0 {
+            None
+        } else {
+            self.get_index(self.entries.len() - 1)
+        }
+    }
+    pub fn pop(&mut self) -> Option<(K, V)> {
+        self.entries.pop()
+    }
 }
 
 impl<K: Hash + Eq, V> IndexMap<K, V> {
-    fn find<Q: ?Sized + Eq>(&self, q: &Q) -> Option<usize> where K: Borrow<Q> {
+    fn find<Q: ?Sized + Eq>(&self, q: &Q) -> Option<usize>
+    where
+        K: Borrow<Q>,
+    {
         let mut i = 0;
         while i < self.entries.len() {
-            if self.entries[i].0.borrow() == q { return Some(i); }
+            if self.entries.at(i).0.borrow() == q {
+                return Some(i);
+            }
             i += 1;
         }
         None
     }
-    pub fn get_index_of<Q: ?Sized + Hash + Eq>(&self, q: &Q) -> Option<usize> where K: Borrow<Q> { self.find(q) }
-    pub fn contains_key<Q: ?Sized + Hash + Eq>(&self, q: &Q) -> bool where K: Borrow<Q> { self.find(q).is_some() }
-    pub fn get<Q: ?Sized + Hash + Eq>(&self, q: &Q) -> Option<&V> where K: Borrow<Q> {
-        match self.find(q) { Some(i) => Some(&self.entries[i].1), None => None }
+    pub fn get_index_of<Q: ?Sized + Hash + Eq>(&self, q: &Q) -> Option<usize>
+    where
+        K: Borrow<Q>,
+    {
+        self.find(q)
     }
-    pub fn get_mut<Q: ?Sized + Hash + Eq>(&mut self, q: &Q) -> Option<&mut V> where K: Borrow<Q> {
-        match self.find(q) { Some(i) => Some(&mut self.entries[i].1), None => None }
+    pub fn contains_key<Q: ?Sized + Hash + Eq>(&self, q: &Q) -> bool
+    where
+        K: Borrow<Q>,
+    {
+        self.find(q).is_some()
     }
-    pub fn get_full<Q: ?Sized + Hash + Eq>(&self, q: &Q) -> Option<(usize, &K, &V)> where K: Borrow<Q> {
-        match self.find(q) { Some(i) => Some((i, &self.entries[i].0, &self.entries[i].1)), None => None }
+    pub fn get<Q: ?Sized + Hash + Eq>(&self, q: &Q) -> Option<&V>
+    where
+        K: Borrow<Q>,
+    {
+        match self.find(q) {
+            Some(i) => Some(&self.entries.at(i).1),
+            None => None,
+        }
+    }
+    pub fn get_mut<Q: ?Sized + Hash + Eq>(&mut self, q: &Q) -> Option<&mut V>
+    where
+        K: Borrow<Q>,
+    {
+        match self.find(q) {
+            Some(i) => Some(&mut self.entries.at_mut(i).1),
+            None => None,
+        }
+    }
+    pub fn get_full<Q: ?Sized + Hash + Eq>(&self, q: &Q) -> Option<(usize, &K, &V)>
+    where
+        K: Borrow<Q>,
+    {
+        match self.find(q) {
+            Some(i) => {
+                let e = self.entries.at(i);
+                Some((i, &e.0, &e.1))
+            }
+            None => None,
+        }
     }
     pub fn insert(&mut self, k: K, v: V) -> Option<V> {
         match self.find(&k) {
-            Some(i) => Some(std::mem::replace(&mut self.entries[i].1, v)),
-            None => { self.entries.push((k, v)); None }
+            Some(i) => Some(std::mem::replace(&mut self.entries.at_mut(i).1, v)),
+            None => {
+                self.entries.push((k, v));
+                None
+            }
         }
     }
     pub fn insert_full(&mut self, k: K, v: V) -> (usize, Option<V>) {
         match self.find(&k) {
-            Some(i) => (i, Some(std::mem::replace(&mut self.entries[i].1, v))),
-            None => { self.entries.push((k, v)); (self.entries.len() - 1, None) }
+            Some(i) => (i, Some(std::mem::replace(&mut self.entries.at_mut(i).1, v))),
+            None => {
+                self.entries.push((k, v));
+                (self.entries.len() - 1, None)
+            }
         }
     }
-    pub fn swap_remove<Q: ?Sized + Hash + Eq>(&mut self, q: &Q) -> Option<V> where K: Borrow<Q> {
-        match self.find(q) { Some(i) => Some(self.entries.swap_remove(i).1), None => None }
+    pub fn swap_remove<Q: ?Sized + Hash + Eq>(&mut self, q: &Q) -> Option<V>
+    where
+        K: Borrow<Q>,
+    {
+        match self.find(q) {
+            Some(i) => Some(self.entries.swap_remove(i).1),
+            None => None,
+        }
     }
-    pub fn shift_remove<Q: ?Sized + Hash + Eq>(&mut self, q: &Q) -> Option<V> where K: Borrow<Q> {
-        match self.find(q) { Some(i) => Some(self.entries.remove(i).1), None => None }
+    pub fn shift_remove<Q: ?Sized + Hash + Eq>(&mut self, q: &Q) -> Option<V>
+    where
+        K: Borrow<Q>,
+    {
+        match self.find(q) {
+            Some(i) => Some(self.entries.remove(i).1),
+            None => None,
+        }
     }
     pub fn entry(&mut self, k: K) -> Entry<'_, K, V> {
         match self.find(&k) {
@@ -123,88 +572,166 @@ pub enum Entry<'a, K, V> {
     Occupied(OccupiedEntry<'a, K, V>),
     Vacant(VacantEntry<'a, K, V>),
 }
-pub struct OccupiedEntry<'a, K, V> { map: &'a mut IndexMap<K, V>, index: usize }
-pub struct VacantEntry<'a, K, V> { map: &'a mut IndexMap<K, V>, key: K }
+pub struct OccupiedEntry<'a, K, V> {
+    map: &'a mut IndexMap<K, V>,
+    index: usize,
+}
+pub struct VacantEntry<'a, K, V> {
+    map: &'a mut IndexMap<K, V>,
+    key: K,
+}
 
 impl<'a, K, V> OccupiedEntry<'a, K, V> {
-    pub fn get(&self) -> &V { &self.map.entries[self.index].1 }
-    pub fn get_mut(&mut self) -> &mut V { &mut self.map.entries[self.index].1 }
-    pub fn into_mut(self) -> &'a mut V { &mut self.map.entries[self.index].1 }
-    pub fn index(&self) -> usize { self.index }
-    pub fn key(&self) -> &K { &self.map.entries[self.index].0 }
-    pub fn insert(&mut self, v: V) -> V { std::mem::replace(&mut self.map.entries[self.index].1, v) }
-    pub fn swap_remove(self) -> V { self.map.entries.swap_remove(self.index).1 }
-    pub fn shift_remove(self) -> V { self.map.entries.remove(self.index).1 }
+    pub fn get(&self) -> &V {
+        &self.map.entries.at(self.index).1
+    }
+    pub fn get_mut(&mut self) -> &mut V {
+        &mut self.map.entries.at_mut(self.index).1
+    }
+    pub fn into_mut(self) -> &'a mut V {
+        &mut self.map.entries.at_mut(self.index).1
+    }
+    pub fn index(&self) -> usize {
+        self.index
+    }
+    pub fn key(&self) -> &K {
+        &self.map.entries.at(self.index).0
+    }
+    pub fn insert(&mut self, v: V) -> V {
+        std::mem::replace(&mut self.map.entries.at_mut(self.index).1, v)
+    }
+    pub fn swap_remove(self) -> V {
+        self.map.entries.swap_remove(self.index).1
+    }
+    pub fn shift_remove(self) -> V {
+        self.map.entries.remove(self.index).1
+    }
 }
 impl<'a, K, V> VacantEntry<'a, K, V> {
     pub fn insert(self, v: V) -> &'a mut V {
         self.map.entries.push((self.key, v));
         let n = self.map.entries.len() - 1;
-        &mut self.map.entries[n].1
+        &mut self.map.entries.at_mut(n).1
     }
-    pub fn index(&self) -> usize { self.map.entries.len() }
-    pub fn key(&self) -> &K { &self.key }
+    pub fn index(&self) -> usize {
+        self.map.entries.len()
+    }
+    pub fn key(&self) -> &K {
+        &self.key
+    }
 }
 impl<'a, K, V> Entry<'a, K, V> {
     pub fn or_insert(self, v: V) -> &'a mut V {
-        match self { Entry::Occupied(e) => e.into_mut(), Entry::Vacant(e) => e.insert(v) }
+        match self {
+            Entry::Occupied(e) => e.into_mut(),
+            Entry::Vacant(e) => e.insert(v),
+        }
     }
     pub fn or_insert_with<F: FnOnce() -> V>(self, f: F) -> &'a mut V {
-        match self { Entry::Occupied(e) => e.into_mut(), Entry::Vacant(e) => e.insert(f()) }
+        match self {
+            Entry::Occupied(e) => e.into_mut(),
+            Entry::Vacant(e) => e.insert(f()),
+        }
     }
-    pub fn or_default(self) -> &'a mut V where V: Default {
-        match self { Entry::Occupied(e) => e.into_mut(), Entry::Vacant(e) => e.insert(V::default()) }
+    pub fn or_default(self) -> &'a mut V
+    where
+        V: Default,
+    {
+        match self {
+            Entry::Occupied(e) => e.into_mut(),
+            Entry::Vacant(e) => e.insert(V::default()),
+        }
     }
     pub fn and_modify<F: FnOnce(&mut V)>(mut self, f: F) -> Self {
-        if let Entry::Occupied(e) = &mut self { f(e.get_mut()); }
+        if let Entry::Occupied(e) = &mut self {
+            f(e.get_mut());
+        }
         self
     }
     pub fn index(&self) -> usize {
-        match self { Entry::Occupied(e) => e.index(), Entry::Vacant(e) => e.index() }
+        match self {
+            Entry::Occupied(e) => e.index(),
+            Entry::Vacant(e) => e.index(),
+        }
     }
     pub fn key(&self) -> &K {
-        match self { Entry::Occupied(e) => e.key(), Entry::Vacant(e) => e.key() }
+        match self {
+            Entry::Occupied(e) => e.key(),
+            Entry::Vacant(e) => e.key(),
+        }
     }
 }
 
-impl<K: Hash + Eq, V, Q: ?Sized + Hash + Eq> std::ops::Index<&Q> for IndexMap<K, V> where K: Borrow<Q> {
+impl<K: Hash + Eq, V, Q: ?Sized + Hash + Eq> std::ops::Index<&Q> for IndexMap<K, V>
+where
+    K: Borrow<Q>,
+{
     type Output = V;
-    fn index(&self, q: &Q) -> &V { self.get(q).expect("IndexMap: key not found") }
+    fn index(&self, q: &Q) -> &V {
+        match self.get(q) {
+            Some(v) => v,
+            None => panic!("IndexMap: key not found"),
+        }
+    }
 }
-impl<K: Hash + Eq, V, Q: ?Sized + Hash + Eq> std::ops::IndexMut<&Q> for IndexMap<K, V> where K: Borrow<Q> {
-    fn index_mut(&mut self, q: &Q) -> &mut V { self.get_mut(q).expect("IndexMap: key not found") }
+impl<K: Hash + Eq, V, Q: ?Sized + Hash + Eq> std::ops::IndexMut<&Q> for IndexMap<K, V>
+where
+    K: Borrow<Q>,
+{
+    fn index_mut(&mut self, q: &Q) -> &mut V {
+        match self.get_mut(q) {
+            Some(v) => v,
+            None => panic!("IndexMap: key not found"),
+        }
+    }
 }
 impl<K, V> std::ops::Index<usize> for IndexMap<K, V> {
     type Output = V;
-    fn index(&self, i: usize) -> &V { &self.entries[i].1 }
+    fn index(&self, i: usize) -> &V {
+        &self.entries.at(i).1
+    }
 }
 impl<K, V> IntoIterator for IndexMap<K, V> {
     type Item = (K, V);
     type IntoIter = std::vec::IntoIter<(K, V)>;
-    fn into_iter(self) -> Self::IntoIter { self.entries.into_iter() }
+    fn into_iter(self) -> Self::IntoIter {
+        self.entries.into_vec().into_iter()
+    }
 }
 impl<'a, K, V> IntoIterator for &'a IndexMap<K, V> {
     type Item = (&'a K, &'a V);
     type IntoIter = MapIter<'a, K, V>;
-    fn into_iter(self) -> Self::IntoIter { self.iter() }
+    fn into_iter(self) -> Self::IntoIter {
+        self.iter()
+    }
 }
 impl<'a, K, V> IntoIterator for &'a mut IndexMap<K, V> {
     type Item = (&'a K, &'a mut V);
     type IntoIter = MapIterMut<'a, K, V>;
-    fn into_iter(self) -> Self::IntoIter { self.iter_mut() }
+    fn into_iter(self) -> Self::IntoIter {
+        self.iter_mut()
+    }
 }
 impl<K: Hash + Eq, V> FromIterator<(K, V)> for IndexMap<K, V> {
     fn from_iter<I: IntoIterator<Item = (K, V)>>(it: I) -> Self {
         let mut m = Self::new();
-        for (k, v) in it { m.insert(k, v); }
+        for (k, v) in it {
+            m.insert(k, v);
+        }
         m
     }
 }
 impl<K: Hash + Eq, V> Extend<(K, V)> for IndexMap<K, V> {
-    fn extend<I: IntoIterator<Item = (K, V)>>(&mut self, it: I) { for (k, v) in it { self.insert(k, v); } }
+    fn extend<I: IntoIterator<Item = (K, V)>>(&mut self, it: I) {
+        for (k, v) in it {
+            self.insert(k, v);
+        }
+    }
 }
 impl<K: Hash + Eq, V, const N: usize> From<[(K, V); N]> for IndexMap<K, V> {
-    fn from(a: [(K, V); N]) -> Self { a.into_iter().collect() }
+    fn from(a: [(K, V); N]) -> Self {
+        a.into_iter().collect()
+    }
 }
 impl<K: Hash + Eq, V: PartialEq> PartialEq for IndexMap<K, V> {
     fn eq(&self, o: &Self) -> bool {
@@ -213,77 +740,209 @@ impl<K: Hash + Eq, V: PartialEq> PartialEq for IndexMap<K, V> {
 }
 impl<K: Hash + Eq, V: Eq> Eq for IndexMap<K, V> {}
 
-// ---------------------------------------------------------------- IndexSet
-#[derive(Clone)]
-pub struct IndexSet<T> { items: Vec<T> }
-impl<T: std::fmt::Debug> std::fmt::Debug for IndexSet<T> {
-    fn fmt(&self, f: &mut std::fmt::Formatter<'_>) -> std::fmt::Result { f.debug_set().entries(self.items.iter()).finish() }
+// ------------------------------------------------------------------------------------------------
+// IndexSet
+
+pub struct IndexSet<T> {
+    items: Seq<T>,
 }
-impl<T> Default for IndexSet<T> { fn default() -> Self { Self { items: Vec::new() } } }
+impl<T: Clone> Clone for IndexSet<T> {
+    fn clone(&self) -> Self {
+        IndexSet { items: self.items.clone() }
+    }
+}
+impl<T: std::fmt::Debug> std::fmt::Debug for IndexSet<T> {
+    fn fmt(&self, f: &mut std::fmt::Formatter<'_>) -> std::fmt::Result {
+        f.debug_set().entries(self.iter()).finish()
+    }
+}
+impl<T> Default for IndexSet<T> {
+    fn default() -> Self {
+        Self::new()
+    }
+}
+pub type SetIter<'a, T> = SeqIter<'a, T>;
+
 impl<T> IndexSet<T> {
-    pub fn new() -> Self { Self { items: Vec::new() } }
-    pub fn with_capacity(n: usize) -> Self { Self { items: Vec::with_capacity(n) } }
-    pub fn len(&self) -> usize { self.items.len() }
-    pub fn is_empty(&self) -> bool { self.items.is_empty() }
-    pub fn clear(&mut self) { self.items.clear() }
-    pub fn iter(&self) -> std::slice::Iter<'_, T> { self.items.iter() }
-    pub fn get_index(&self, i: usize) -> Option<&T> { self.items.get(i) }
-    pub fn swap_remove_index(&mut self, i: usize) -> Option<T> { if i < self.items.len() { Some(self.items.swap_remove(i)) } else { None } }
-    pub fn shift_remove_index(&mut self, i: usize) -> Option<T> { if i < self.items.len() { Some(self.items.remove(i)) } else { None } }
-    pub fn retain<F: FnMut(&T) -> bool>(&mut self, f: F) { self.items.retain(f) }
-    pub fn first(&self) -> Option<&T> { self.items.first() }
-    pub fn last(&self) -> Option<&T> { self.items.last() }
-    pub fn pop(&mut self) -> Option<T> { self.items.pop() }
-    pub fn drain<R: std::ops::RangeBounds<usize>>(&mut self, r: R) -> std::vec::Drain<'_, T> { self.items.drain(r) }
+    pub const fn new() -> Self {
+        Self { items: Seq::new() }
+    }
+    pub fn with_capacity(_n: usize) -> Self {
+        Self::new()
+    }
+    pub fn len(&self) -> usize {
+        self.items.len()
+    }
+    pub fn is_empty(&self) -> bool {
+        self.items.len() == 0
+    }
+    pub fn clear(&mut self) {
+        self.items.clear()
+    }
+    pub fn iter(&self) -> SetIter<'_, T> {
+        self.items.iter()
+    }
+    pub fn get_index(&self, i: usize) -> Option<&T> {
+        self.items.get(i)
+    }
+    pub fn swap_remove_index(&mut self, i: usize) -> Option<T> {
+        if i < self.items.len() {
+            Some(self.items.swap_remove(i))
+        } else {
+            None
+        }
+    }
+    pub fn shift_remove_index(&mut self, i: usize) -> Option<T> {
+        if i < self.items.len() {
+            Some(self.items.remove(i))
+        } else {
+            None
+        }
+    }
+    pub fn retain<F: FnMut(&T) -> bool>(&mut self, mut f: F) {
+        self.items.retain_mut(|t| f(&*t))
+    }
+    pub fn first(&self) -> Option<&T> {
+        self.items.get(0)
+    }
+    pub fn last(&self) -> Option<&T> {
+        if self.items.len() == 0 {
+            None
+        } else {
+            self.items.get(self.items.len() - 1)
+        }
+    }
+    pub fn pop(&mut self) -> Option<T> {
+        self.items.pop()
+    }
+    pub fn drain(&mut self, _r: std::ops::RangeFull) -> std::vec::IntoIter<T> {
+        self.items.drain_all().into_iter()
+    }
 }
 impl<T: Hash + Eq> IndexSet<T> {
-    fn find<Q: ?Sized + Eq>(&self, q: &Q) -> Option<usize> where T: Borrow<Q> {
+    fn find<Q: ?Sized + Eq>(&self, q: &Q) -> Option<usize>
+    where
+        T: Borrow<Q>,
+    {
         let mut i = 0;
         while i < self.items.len() {
-            if self.items[i].borrow() == q { return Some(i); }
+            if self.items.at(i).borrow() == q {
+                return Some(i);
+            }
             i += 1;
         }
         None
     }
-    pub fn contains<Q: ?Sized + Hash + Eq>(&self, q: &Q) -> bool where T: Borrow<Q> { self.find(q).is_some() }
-    pub fn get<Q: ?Sized + Hash + Eq>(&self, q: &Q) -> Option<&T> where T: Borrow<Q> {
-        match self.find(q) { Some(i) => Some(&self.items[i]), None => None }
+    pub fn contains<Q: ?Sized + Hash + Eq>(&self, q: &Q) -> bool
+    where
+        T: Borrow<Q>,
+    {
+        self.find(q).is_some()
     }
-    pub fn get_index_of<Q: ?Sized + Hash + Eq>(&self, q: &Q) -> Option<usize> where T: Borrow<Q> { self.find(q) }
+    pub fn get<Q: ?Sized + Hash + Eq>(&self, q: &Q) -> Option<&T>
+    where
+        T: Borrow<Q>,
+    {
+        match self.find(q) {
+            Some(i) => self.items.get(i),
+            None => None,
+        }
+    }
+    pub fn get_index_of<Q: ?Sized + Hash + Eq>(&self, q: &Q) -> Option<usize>
+    where
+        T: Borrow<Q>,
+    {
+        self.find(q)
+    }
     pub fn insert(&mut self, t: T) -> bool {
-        if self.find(&t).is_some() { false } else { self.items.push(t); true }
+        if self.find(&t).is_some() {
+            false
+        } else {
+            self.items.push(t);
+            true
+        }
     }
     pub fn insert_full(&mut self, t: T) -> (usize, bool) {
-        match self.find(&t) { Some(i) => (i, false), None => { self.items.push(t); (self.items.len() - 1, true) } }
+        match self.find(&t) {
+            Some(i) => (i, false),
+            None => {
+                self.items.push(t);
+                (self.items.len() - 1, true)
+            }
+        }
     }
-    pub fn swap_remove<Q: ?Sized + Hash + Eq>(&mut self, q: &Q) -> bool where T: Borrow<Q> {
-        match self.find(q) { Some(i) => { self.items.swap_remove(i); true } None => false }
+    pub fn swap_remove<Q: ?Sized + Hash + Eq>(&mut self, q: &Q) -> bool
+    where
+        T: Borrow<Q>,
+    {
+        match self.find(q) {
+            Some(i) => {
+                self.items.swap_remove(i);
+                true
+            }
+            None => false,
+        }
     }
-    pub fn shift_remove<Q: ?Sized + Hash + Eq>(&mut self, q: &Q) -> bool where T: Borrow<Q> {
-        match self.find(q) { Some(i) => { self.items.remove(i); true } None => false }
+    pub fn shift_remove<Q: ?Sized + Hash + Eq>(&mut self, q: &Q) -> bool
+    where
+        T: Borrow<Q>,
+    {
+        match self.find(q) {
+            Some(i) => {
+                self.items.remove(i);
+                true
+            }
+            None => false,
+        }
     }
-    pub fn swap_take<Q: ?Sized + Hash + Eq>(&mut self, q: &Q) -> Option<T> where T: Borrow<Q> {
-        match self.find(q) { Some(i) => Some(self.items.swap_remove(i)), None => None }
+    pub fn swap_take<Q: ?Sized + Hash + Eq>(&mut self, q: &Q) -> Option<T>
+    where
+        T: Borrow<Q>,
+    {
+        match self.find(q) {
+            Some(i) => Some(self.items.swap_remove(i)),
+            None => None,
+        }
     }
 }
 impl<T> IntoIterator for IndexSet<T> {
-    type Item = T; type IntoIter = std::vec::IntoIter<T>;
-    fn into_iter(self) -> Self::IntoIter { self.items.into_iter() }
+    type Item = T;
+    type IntoIter = std::vec::IntoIter<T>;
+    fn into_iter(self) -> Self::IntoIter {
+        self.items.into_vec().into_iter()
+    }
 }
 impl<'a, T> IntoIterator for &'a IndexSet<T> {
-    type Item = &'a T; type IntoIter = std::slice::Iter<'a, T>;
-    fn into_iter(self) -> Self::IntoIter { self.items.iter() }
+    type Item = &'a T;
+    type IntoIter = SetIter<'a, T>;
+    fn into_iter(self) -> Self::IntoIter {
+        self.items.iter()
+    }
 }
 impl<T: Hash + Eq> FromIterator<T> for IndexSet<T> {
-    fn from_iter<I: IntoIterator<Item = T>>(it: I) -> Self { let mut s = Self::new(); for t in it { s.insert(t); } s }
+    fn from_iter<I: IntoIterator<Item = T>>(it: I) -> Self {
+        let mut s = Self::new();
+        for t in it {
+            s.insert(t);
+        }
+        s
+    }
 }
 impl<T: Hash + Eq> Extend<T> for IndexSet<T> {
-    fn extend<I: IntoIterator<Item = T>>(&mut self, it: I) { for t in it { self.insert(t); } }
+    fn extend<I: IntoIterator<Item = T>>(&mut self, it: I) {
+        for t in it {
+            self.insert(t);
+        }
+    }
 }
 impl<T: Hash + Eq, const N: usize> From<[T; N]> for IndexSet<T> {
-    fn from(a: [T; N]) -> Self { a.into_iter().collect() }
+    fn from(a: [T; N]) -> Self {
+        a.into_iter().collect()
+    }
 }
 impl<T: Hash + Eq> PartialEq for IndexSet<T> {
-    fn eq(&self, o: &Self) -> bool { self.len() == o.len() && self.iter().all(|t| o.contains(t)) }
+    fn eq(&self, o: &Self) -> bool {
+        self.len() == o.len() && self.iter().all(|t| o.contains(t))
+    }
 }
 impl<T: Hash + Eq> Eq for IndexSet<T> {}
